@@ -180,3 +180,17 @@ Theorem C01_mapor_km_converge (H : list (oprec (mop oop))) :
   mohist_ok_km H -> km_once H -> forall (s1 s2 : cmap orswot) (K : gset nat), moreach_km H s1 K -> moreach_km H s2 K -> s1 = s2.
 Proof. exact (mapor_converge_km H). Qed.
 Print Assumptions C01_mapor_km_converge.
+
+(** Map<K, Orswot>, EVERY history outside the classes of the known findings T2 and T3 (all commands; a key that some key remove names receives only nested adds [kmn_addonly] and at most one update per actor [km_once]; any other key receives anything): the COMPLETE state is a function of the knowledge under per-actor delivery, duplicates and merges (proofs/MapOrswotKMN.v);
+    the two earlier fragments are special cases (mapor_kmn_nk, mapor_kmn_km) *)
+From Crdt Require Import model.Orswot model.Map spec.System spec.OrswotSpec spec.OrswotSystem spec.MapSpec spec.MapSystem spec.MapOrswotSpec spec.MapOrswotKM spec.MapOrswotKMN proofs.MapOrswotKMN proofs.MapOrswotKMNCor.
+Theorem C01_mapor_kmn_refine (H : list (oprec (mop oop))) :
+  mohist_ok_kmn H -> km_once H -> kmn_addonly H -> forall (s : cmap orswot) (K : gset nat), moreach_kmn H s K -> s = mapor_spec_kmn H K.
+Proof. exact (mapor_refine_kmn H). Qed.
+Print Assumptions C01_mapor_kmn_refine.
+
+Theorem C01_mapor_kmn_converge (H : list (oprec (mop oop))) :
+  mohist_ok_kmn H -> km_once H -> kmn_addonly H ->
+  forall (s1 s2 : cmap orswot) (K : gset nat), moreach_kmn H s1 K -> moreach_kmn H s2 K -> s1 = s2.
+Proof. exact (mapor_converge_kmn H). Qed.
+Print Assumptions C01_mapor_kmn_converge.
